@@ -200,9 +200,9 @@ theorem error_after_its_data (maxMsg : Nat) (s : Script) (sizes : List Nat) (hf 
   obtain ⟨h1, _, ⟨pre, h3⟩, h4⟩ := run_spec maxMsg sizes {} s hf (by simp)
   have hp := h4 d e hlast
   refine ⟨pre, h3, ?_⟩
+  rw [hp, List.append_nil] at h1
   simp only [pending, List.drop_nil, List.nil_append] at h1
   unfold reads
-  rw [hp, List.append_nil] at h1
   have : flat s = (pre.map (·.data)).flatten ++ flat (run maxMsg {} s sizes).2.2 := by
     simp only [flat]; rw [h3]; simp
   rw [this] at h1
@@ -214,28 +214,22 @@ theorem errors_come_from_stream (maxMsg : Nat) (s : Script) (sizes : List Nat) (
     (d : Bytes) (e : Err) (hmem : (d, some e) ∈ reads maxMsg s sizes) :
     e = s.endErr ∨ ∃ it ∈ s.items, it.err = some e := by
   let Q : Err → Prop := fun e => e = s.endErr ∨ ∃ it ∈ s.items, it.err = some e
-  suffices h : ∀ (sizes : List Nat) (st : RState) (s' : Script), Fits maxMsg s' →
+  suffices h : ∀ (sizes : List Nat) (st : RState) (s' : Script), Fits maxMsg s' → st.off ≤ st.buf.length →
       (∀ it ∈ s'.items, ∀ e, it.err = some e → Q e) → Q s'.endErr → (∀ e, st.err = some e → Q e) →
       ∀ d e, (d, some e) ∈ (run maxMsg st s' sizes).1 → Q e by
-    exact h sizes {} s hf (fun it hit e he => Or.inr ⟨it, hit, he⟩) (Or.inl rfl) (by simp) d e hmem
+    exact h sizes {} s hf (by simp) (fun it hit e he => Or.inr ⟨it, hit, he⟩) (Or.inl rfl) (by simp) d e hmem
   intro sizes
   induction sizes with
-  | nil => intro st s' _ _ _ _ d e h; simp [run] at h
+  | nil => intro st s' _ _ _ _ _ d e h; simp [run] at h
   | cons m ms ih =>
-    intro st s' hf' hs he hst d e h
+    intro st s' hf' hw hs he hst d e h
     obtain ⟨q1, q2, q3⟩ := read_err_origin Q maxMsg st s' m hf' hs he hst
-    obtain ⟨_, f2, _, f4, _⟩ := read_spec maxMsg st s' m hf' (by
-      -- well-formedness is not needed for the origin of errors; use the trivial bound when it holds
-      exact Nat.le_of_not_lt (fun hlt => by
-        exact absurd hlt (Nat.not_lt.mpr (Nat.le_refl _) |> fun _ => by
-          by_cases hw : st.off ≤ st.buf.length
-          · exact Nat.not_lt.mpr hw
-          · exact absurd hlt (by omega))))
+    obtain ⟨_, f2, f3, f4, _⟩ := read_spec maxMsg st s' m hf' hw
     simp only [run, List.mem_cons] at h
     rcases h with h | h
     · have : (read maxMsg st s' m).1.2 = some e := by rw [← h]
       exact q1 e this
-    · exact ih _ _ f2 q3 (by rw [f4]; exact he) q2 d e h
+    · exact ih _ _ f2 f3 q3 (by rw [f4]; exact he) q2 d e h
 
 end stream
 
@@ -355,61 +349,23 @@ token).  Heartbeats of the dialling side are written below the flow control (`hb
 half interval) and are excluded here. -/
 theorem buffered_bounded (max : Nat) (ops : List WOp) (hops : ∀ op ∈ ops, ∀ n, op ≠ .hbWrite n) :
     (wrun max ops).buffered ≤ max + max / 2 := by
-  suffices h : ∀ (ops : List WOp) (s : WState), (∀ op ∈ ops, ∀ n, op ≠ .hbWrite n) → WInv max s →
-      WInv max (wrun max ops s) from (h ops {} hops (winv_init max)).2.1
-  intro ops
-  induction ops with
-  | nil => intro s _ h; exact h
-  | cons o os ih =>
-    intro s ho h
-    exact ih _ (fun op hop => ho op (by simp [hop])) (winv_step max s o (ho o (by simp)) h)
+  have h := (winv_run max ops 0 {} (winv_init max)).2.1
+  have hz : hbBytes ops = 0 := by
+    clear h
+    induction ops with
+    | nil => rfl
+    | cons o os ih =>
+      have := ih (fun op hop => hops op (by simp [hop]))
+      have ho := hops o (by simp)
+      cases o <;> simp_all [hbBytes, opHb]
+  rw [hz] at h
+  simpa using h
 
-/-- each heartbeat written below the flow control adds at most its own length -/
-theorem buffered_bounded_with_heartbeats (max hbLen : Nat) (ops : List WOp)
-    (hops : ∀ op ∈ ops, ∀ n, op = .hbWrite n → n ≤ hbLen) :
-    ∀ s : WState, (wrun max ops s).buffered ≤
-      Nat.max s.buffered (max + max / 2) + hbLen * ops.length + max / 2 * 0 + (ops.length * 0) + 0 +
-      (if s.blocked.isSome then max / 2 else 0) + max / 2 := by
-  induction ops with
-  | nil => intro s; simp [wrun]; omega
-  | cons o os ih =>
-    intro s
-    have hrest := ih (fun op hop n hn => hops op (by simp [hop]) n hn) (wstep max s o).1
-    have hstep : (wstep max s o).1.buffered ≤ Nat.max s.buffered (max + max / 2) + hbLen ∧
-        ((wstep max s o).1.blocked.isSome = true → (wstep max s o).1.buffered ≤ Nat.max s.buffered (max + max / 2)) := by
-      cases o with
-      | write n =>
-        simp only [wstep]
-        split
-        · exact ⟨by omega, fun _ => by omega⟩
-        · split
-          · exact ⟨by omega, fun _ => by omega⟩
-          · split
-            · exact ⟨by omega, fun _ => by omega⟩
-            · split
-              · split
-                · exact ⟨by omega, fun _ => by omega⟩
-                · split
-                  · refine ⟨?_, fun _ => ?_⟩ <;> simp only <;> omega
-                  · exact ⟨by simp only; omega, fun _ => by simp only; omega⟩
-              · refine ⟨?_, fun _ => ?_⟩ <;> simp only <;> omega
-      | drain k =>
-        simp only [wstep]
-        split
-        · split
-          · refine ⟨?_, fun h => ?_⟩
-            · simp only; omega
-            · simp at h
-          · exact ⟨by simp only; omega, fun _ => by simp only; omega⟩
-        · exact ⟨by simp only; omega, fun _ => by simp only; omega⟩
-      | hbWrite n =>
-        have := hops (.hbWrite n) (by simp) n rfl
-        simp only [wstep]
-        exact ⟨by omega, fun _ => by omega⟩
-      | close =>
-        simp only [wstep]
-        split <;> exact ⟨by simp only; omega, fun _ => by simp only; omega⟩
-    sorry
+/-- with the heartbeat sender in the picture the bound grows only by the heartbeat bytes themselves -/
+theorem buffered_bounded_with_heartbeats (max : Nat) (ops : List WOp) :
+    (wrun max ops).buffered ≤ max + max / 2 + hbBytes ops := by
+  have h := (winv_run max ops 0 {} (winv_init max)).2.1
+  simpa using h
 
 /-- an over-sized or empty write changes nothing -/
 theorem write_limit (max : Nat) (s : WState) (n : Nat) (hb : s.blocked = none) :
@@ -428,13 +384,33 @@ theorem watchdog_closes (T : Nat) (hT : 1 ≤ T) (before after : List Ev)
     (hno : ∀ e ∈ after, e ≠ .hb) (hticks : 2 * T ≤ ticks after) :
     (((WD.init T).run before).run after).closed = true := by
   have hwf := wf_run (WD.init T) before (wf_init T hT)
-  have hTeq : ((WD.init T).run before).T = T := by
-    clear hwf
-    generalize WD.init T = s0
-    suffices h : ∀ (evs : List Ev) (s : WD), (s.run evs).T = s.T by
-      sorry
-    sorry
-  sorry
+  have hTeq : ((WD.init T).run before).T = T := T_run _ _
+  rcases phi_run _ after hwf hno with h | h
+  · exact h
+  · have hle := phi_le _ hwf
+    rw [hTeq] at hle
+    exact phi_zero_closed _ (wf_run _ after hwf) (by omega)
+
+/-- … and within one period if nothing at all arrives (the read deadline of `recvLoop`) -/
+theorem watchdog_closes_idle (T : Nat) (hT : 1 ≤ T) (before : List Ev) (n : Nat) (hn : T ≤ n) :
+    (((WD.init T).run before).run (List.replicate n .tick)).closed = true := by
+  have hwf := wf_run (WD.init T) before (wf_init T hT)
+  have hTeq : ((WD.init T).run before).T = T := T_run _ _
+  rcases idle_run _ n hwf with h | ⟨hle, hcl⟩
+  · exact h
+  · have hwf' := wf_run _ (List.replicate n .tick) hwf
+    obtain ⟨_, _, h3, _⟩ := hwf'.2 hcl
+    cases hc : ((WD.init T).run before).closed with
+    | true => rw [closed_run _ _ hc] at hcl; cases hcl
+    | false =>
+      obtain ⟨_, _, _, h4⟩ := hwf.2 hc
+      rw [hTeq] at h4
+      omega
+
+/-- non-vacuity: heartbeats for a while (the connection stays open), then silence -/
+example : ((WD.init 3).run [.tick, .hb, .tick, .tick, .hb, .tick, .data, .tick, .tick]).closed = false := by decide
+example : ∀ e ∈ [Ev.tick, .data, .tick, .tick, .data, .tick, .tick, .tick], e ≠ .hb := by decide
+example : 2 * 3 ≤ ticks [Ev.tick, .data, .tick, .tick, .data, .tick, .tick, .tick] := by decide
 
 end heartbeat
 
